@@ -698,6 +698,28 @@ pub fn c03(tier: &str, seed: u64) {
         case(true);
       }
     }
+    // the same relation one block further on: a measurement longer than a block is a common prefix
+    // of whole blocks, and the block in which the associated data start leaks their difference
+    // (Lean: C03_reports_leak_beyond_first_block) - same root cause, same known finding
+    if case_i % 5 == 0 {
+      let ml = *g.pick(&[162usize, 170, 200, 328, 340]);
+      let lm = g.blob(ml);
+      let n = ((4 + ml) / 166) * 166;
+      let (a1, a2) = (g.bytes(12), g.bytes(12));
+      let c1 = make_client(&lm, &e, t, Some(a1.clone()), None);
+      let c2 = make_client(&lm, &e, t, Some(a2.clone()), None);
+      let (ca, cb) = (c1.msg.ciphertext.to_bytes(), c2.msg.ciphertext.to_bytes());
+      let (pa, pb) = (payload_of(&lm, &c1.aux), payload_of(&lm, &c2.aux));
+      let end = (n + 166).min(ca.len());
+      if a1 != a2 && ca[..n] == cb[..n] && xor(&ca[n..end], &cb[n..end]) == xor(&pa[n..end], &pb[n..end]) {
+        fail(
+          "keystream_reuse_after_common_prefix",
+          &[("measurement_len", ml.to_string()), ("epoch", hex(&e)), ("threshold", t.to_string()), ("aux_1", hex(&a1)), ("aux_2", hex(&a2)), ("ciphertexts_equal_on_bytes", format!("0..{}", n)), ("xor_equal_on_bytes", format!("{}..{}", n, end))],
+        );
+      }
+      case(true);
+      stat("oracle.C03.long_measurement_pairs");
+    }
     for c in &clients {
       let b = c.msg.to_bytes();
       let a = c.aux.as_ref().unwrap();
